@@ -17,7 +17,7 @@ DILL_KINDS = ["fifo_random", "fifo_random_dup", "fifo_grid", "hb_random", "hb_ra
               "fifo_grid_dup", "fifo_random_restrict"]
 STATE_KINDS = ["fifo_random", "fifo_random_dup", "fifo_grid", "hb_random", "fifo_grid_dup", "fifo_random_restrict"]
 GP_DILL = ["fifo_bayesopt", "hb_bayesopt"]
-GP_STATE = ["fifo_bayesopt", "hb_bayesopt"]
+GP_STATE = ["fifo_bayesopt", "hb_bayesopt", "fifo_bayesopt_small"]
 
 
 def twin_run(kind, name, p2e, seed, hist, how):
@@ -134,6 +134,28 @@ def run(rep, tier, seed):
         return h
     for how in ("state", "dill"):
         c = campaign(rep, GP_STATE, how, [b2b(0), b2b(1)], seed * 100 + 41, 4 if tier == "quick" else 12, f"gp-back-to-back-{how}")
+        for k, v in c.items():
+            total[k] = total.get(k, 0) + v
+    # a surrogate model fitted to a random sub-sample of the data (max_size_data_for_model) with periodic skipping of the
+    # refit: the sub-sampling converter and the skip predicate's counter are part of what a restored searcher continues with
+    def small(k):
+        h = [{"a": "Suggest"} for _ in range(3)]
+        for t in range(3):
+            h += [{"a": "Result", "t": t}, {"a": "Complete", "t": t}]
+        t = 3
+        for i in range(8):
+            h += [{"a": "Suggest"}]
+            if i in (1 + k % 2, 4, 6):
+                h += [{"a": "Restore"}, {"a": "Suggest"}, {"a": "Result", "t": t + 1}, {"a": "Complete", "t": t + 1},
+                      {"a": "Result", "t": t}, {"a": "Complete", "t": t}]
+                t += 2
+            else:
+                h += [{"a": "Result", "t": t}, {"a": "Complete", "t": t}]
+                t += 1
+        return h
+    for how in ("state", "dill"):
+        c = campaign(rep, ["fifo_bayesopt_small"], how, [small(0), small(1)], seed * 100 + 51, 8 if tier == "quick" else 32,
+                     f"gp-subsample-{how}")
         for k, v in c.items():
             total[k] = total.get(k, 0) + v
     rep.extra["flags_seen_in_traces"] = total
